@@ -582,7 +582,7 @@ func init() {
 			"R16.5 parsed-when-present: the store of a parsed digits/period value is conditioned only on the parameter being present, its parse having succeeded and range tests of the parsed number.",
 		trusted:  []string{"net/url: URL.String / url.Parse / Values.Encode / URL.Query are mutually inverse", "strconv.ParseUint(s, 10, bits) returns a value below 2^bits or an error"},
 		quick:    []Config{CfgNative},
-		thorough: []Config{CfgNative, Cfg386},
+		thorough: []Config{CfgNative, CfgWasm, Cfg386},
 		run:      runC16,
 	})
 }
